@@ -425,3 +425,97 @@ def structure_valid(ages, hh, partner, par, n):
         if a >= 0 and b >= 0 and hh[a] == hh[c] and hh[b] == hh[c] and partner[a] != b:
             return False
     return True
+
+
+# ------------------------------------------------------------------ deviations (k = 1 ... )
+ADULT_ONLY_BOOL = [
+    "weiblich", "selbstständig", "ges_pflegev_hat_kinder", "in_priv_krankenv", "in_ausbildung", "schwerbeh_g", "pflichtbeitr_8_in_10",
+    "arbeitsl_1y_past_585", "vertra_arbeitsl_1997", "vertra_arbeitsl_2006", "anwartschaftszeit", "arbeitssuchend", "bürgerg_bezug_vorj",
+    "budgetsatz_erzieh", "voll_erwerbsgemind", "teilw_erwerbsgemind", "elterngeld_claimed",
+]
+CHILD_FLOATS = ["bruttolohn_m", "kind_unterh_anspr_m", "kind_unterh_erhalt_m", "betreuungskost_m", "vermögen_bedürft", "kapitaleink_brutto_m"]
+SKIP_COLS = {"p_id", "hh_id", "geburtsjahr", "kind", "alleinerz", *POINTERS}
+HH_LEVEL = {"wohnort_ost", "mietstufe"}
+
+
+def _is_fg_child(rows, i):
+    r = rows[i]
+    by = {x["p_id"]: x for x in rows}
+    has_kids = any(x["p_id_elternteil_1"] == r["p_id"] or x["p_id_elternteil_2"] == r["p_id"] for x in rows)
+    par = [by[p] for p in (r["p_id_elternteil_1"], r["p_id_elternteil_2"]) if p >= 0 and p in by]
+    return r["alter"] < 25 and not has_kids and any(p["hh_id"] == r["hh_id"] for p in par)
+
+
+def _age_ok(rows, i, new_age):
+    r = rows[i]
+    by = {x["p_id"]: x for x in rows}
+    for p in (r["p_id_elternteil_1"], r["p_id_elternteil_2"]):
+        if p >= 0 and p in by and by[p]["alter"] - new_age < 15:
+            return False
+    for x in rows:
+        if r["p_id"] in (x["p_id_elternteil_1"], x["p_id_elternteil_2"]) and new_age - x["alter"] < 15:
+            return False
+    if (r["p_id_einstandspartner"] >= 0 or r["p_id_ehepartner"] >= 0) and new_age < 18:
+        return False
+    if r["eigenbedarf_gedeckt"] and new_age >= 25:
+        return False
+    if r["alleinerz"] and new_age < 18:
+        return False
+    return True
+
+
+def deviations(rows, year, reduced=False, cols=None):
+    """Yield (row index, column, value, new rows): one valid single-attribute deviation each."""
+    import copy
+
+    for i, r in enumerate(rows):
+        adult = r["alter"] >= 18
+        for col, t in TYPES_INPUT_VARIABLES.items():
+            if col in SKIP_COLS or (cols is not None and col not in cols):
+                continue
+            alts = [a for a in alphabet(col, year) if a != r[col]]
+            if reduced and len(alts) > 2:
+                alts = [alts[0], alts[len(alts) // 2], alts[-1]] if len(alts) > 3 else alts
+            hh_level = col.endswith("_hh") or col in HH_LEVEL
+            if hh_level and any(x["hh_id"] == r["hh_id"] for x in rows[:i]):
+                continue  # once per household
+            if t is bool and col in ADULT_ONLY_BOOL and not adult:
+                continue
+            if t is float and not adult and col not in CHILD_FLOATS and not hh_level:
+                continue
+            if t is int and not adult and col not in ("alter", "geburtsmonat", "geburtstag", "behinderungsgrad") and not hh_level:
+                continue
+            if col == "rentner" and r["alter"] < 60:
+                continue
+            if col in ("jahr_renteneintr", "monat_renteneintr") and not r["rentner"]:
+                continue
+            if col == "gemeinsam_veranlagt" and r["p_id_ehepartner"] < 0:
+                continue
+            if col == "eigenbedarf_gedeckt" and not _is_fg_child(rows, i):
+                continue
+            if col == "steuerklasse" and not adult:
+                continue
+            if col == "monate_elterngeldbezug" and not adult:
+                continue
+            for v in alts:
+                new = copy.deepcopy(rows)
+                if col == "alter":
+                    if not _age_ok(rows, i, v) or (adult != (v >= 18)):
+                        continue
+                    new[i]["alter"] = v
+                    new[i]["geburtsjahr"] = year - v
+                    if not adult:
+                        new[i]["kind"] = v < 18
+                    if r["rentner"] is False and v >= 18:
+                        new[i]["jahr_renteneintr"] = year - v + 67
+                elif hh_level:
+                    for x in new:
+                        if x["hh_id"] == r["hh_id"]:
+                            x[col] = v
+                elif col == "gemeinsam_veranlagt":
+                    for x in new:
+                        if x["p_id"] in (r["p_id"], r["p_id_ehepartner"]):
+                            x[col] = v
+                else:
+                    new[i][col] = v
+                yield i, col, v, new
